@@ -255,6 +255,12 @@ impl Position {
 //@       if val(b.x1) != 0real || val(b.y1) != 0real {
 //@           m == o.insert("transform"@, if o.dom().contains("transform"@) { o["transform"@] + " "@ + translate_str(val(b.x1), val(b.y1)) } else { translate_str(val(b.x1), val(b.y1)) })
 //@       } else { m == o } })     @@C18.group.translate_after
+//@ - (old(element).name@ == "polyline"@ || old(element).name@ == "polygon"@ || old(element).name@ == "path"@) ==>
+//@     ({ let x = self.px() + or0(self.dx); let y = self.py() + or0(self.dy); let o = old(element).attrs@; let m = final(element).attrs@;
+//@      if x != 0real || y != 0real {
+//@          m.dom().contains("transform"@) && m["transform"@] == (if o.dom().contains("transform"@) { o["transform"@] + " "@ + translate_str(x, y) } else { translate_str(x, y) })
+//@          && !m.dom().contains("x"@) && !m.dom().contains("y"@) && !m.dom().contains("dx"@) && !m.dom().contains("dy"@)
+//@      } else { m == o } })     @@C18.place.shape_moved_by_transform @@C11.place.shape_moved_by_transform
 //@ - to_bbox_spec(*self) is Some && is_rectlike(old(element).name@) ==> lacks(final(element).attrs@,
 //@       seq!["dx"@, "dy"@, "dw"@, "dh"@, "x1"@, "y1"@, "x2"@, "y2"@, "cx"@, "cy"@, "r"@])     @@C11.native.only.rect
 //@ - to_bbox_spec(*self) is Some && old(element).name@ == "circle"@ ==> lacks(final(element).attrs@,
